@@ -1,7 +1,7 @@
 //! C20/C21: the selector's interest bookkeeping against the kernel's epoll table, and the tokens
 //! readiness events carry. One private poller (verif hook), socketpair slots 0..2.
 //! ops: ar <s> <tok> | aw <s> <tok> | dr <s> | dw <s> | d <s> | close <s> | ev <s>
-//! out: `res=<ok|err> [rd=<tokens of readable events>] k=<slot:rw:token,…>` (k read from /proc/self/fdinfo/<epfd>)
+//! out: `res=<ok|err> [rd=<tokens of readable events> wr=<tokens of writable events>] k=<slot:rw:token,…>` (k read from /proc/self/fdinfo/<epfd>)
 use crate::rng::Rng;
 use libc::c_int;
 use open_coroutine_core::net::verif_selector::VPoller;
@@ -22,18 +22,42 @@ fn tok(r: &mut Rng) -> u64 {
 
 pub fn gen(r: &mut Rng, thorough: bool) -> String {
     let n = if thorough { r.range(3, 40) } else { r.range(2, 14) };
-    (0..n).map(|_| {
-        let s = r.below(3);
-        match r.below(12) {
-            0..=2 => format!("ar {s} {}", tok(r)),
-            3..=4 => format!("aw {s} {}", tok(r)),
-            5 => format!("dr {s}"),
-            6 => format!("dw {s}"),
-            7 => format!("d {s}"),
-            8 => format!("close {s}"),
-            _ => format!("ev {s}"),
+    // a token stands for one coroutine, which waits on one descriptor at a time: a token that is
+    // still outstanding on another slot is not reused (1 in 16 cases keeps the old free-for-all)
+    let free_for_all = r.chance(1, 16);
+    let mut out_r: [Option<u64>; 3] = [None; 3];
+    let mut out_w: [Option<u64>; 3] = [None; 3];
+    let mut ops: Vec<String> = Vec::new();
+    let pick = |r: &mut Rng, s: usize, out_r: &[Option<u64>; 3], out_w: &[Option<u64>; 3]| -> u64 {
+        for _ in 0..8 {
+            let t = tok(r);
+            let clash = (0..3).any(|o| o != s && (out_r[o] == Some(t) || out_w[o] == Some(t)));
+            if free_for_all || !clash { return t; }
         }
-    }).collect::<Vec<_>>().join(" | ")
+        r.next() >> 1
+    };
+    while (ops.len() as u64) < n {
+        let s = r.below(3) as usize;
+        match r.below(14) {
+            0..=2 => { let t = if r.chance(1, 3) { out_w[s].or(out_r[s]).unwrap_or_else(|| pick(r, s, &out_r, &out_w)) } else { pick(r, s, &out_r, &out_w) }; out_r[s] = Some(t); ops.push(format!("ar {s} {t}")); }
+            3..=4 => { let t = if r.chance(1, 3) { out_r[s].or(out_w[s]).unwrap_or_else(|| pick(r, s, &out_r, &out_w)) } else { pick(r, s, &out_r, &out_w) }; out_w[s] = Some(t); ops.push(format!("aw {s} {t}")); }
+            5 => { out_r[s] = None; ops.push(format!("dr {s}")); }
+            6 => { out_w[s] = None; ops.push(format!("dw {s}")); }
+            7 => { out_r[s] = None; out_w[s] = None; ops.push(format!("d {s}")); }
+            8 => { out_r[s] = None; out_w[s] = None; ops.push(format!("close {s}")); }
+            9 => {
+                // one coroutine waits to read, then to write, the read edge arrives with both flags,
+                // it waits to write again and another descriptor's edge drives the poll
+                let t = pick(r, s, &out_r, &out_w);
+                let o = (s + 1 + r.below(2) as usize) % 3;
+                ops.push(format!("ar {s} {t}")); ops.push(format!("aw {s} {t}")); ops.push(format!("ev {s}"));
+                ops.push(format!("aw {s} {t}")); ops.push(format!("ev {o}"));
+                out_r[s] = None; out_w = [None; 3]; out_r[o] = None;
+            }
+            _ => { out_r[s] = None; out_w = [None; 3]; ops.push(format!("ev {s}")); }
+        }
+    }
+    ops.join(" | ")
 }
 
 fn ktable(epfd: c_int, slots: &[(c_int, c_int)]) -> String {
@@ -85,7 +109,9 @@ pub fn exec(body: &str, emit: &mut dyn FnMut(&str)) {
                 let evs = p.select(Duration::from_millis(30)).unwrap_or_default();
                 let mut rd: Vec<u64> = evs.iter().filter(|e| e.1).map(|e| e.0).collect();
                 rd.sort();
-                extra = format!(" rd={}", rd.iter().map(|x| x.to_string()).collect::<Vec<_>>().join(","));
+                let mut wr: Vec<u64> = evs.iter().filter(|e| e.2).map(|e| e.0).collect();
+                wr.sort();
+                extra = format!(" rd={} wr={}", rd.iter().map(|x| x.to_string()).collect::<Vec<_>>().join(","), wr.iter().map(|x| x.to_string()).collect::<Vec<_>>().join(","));
                 let mut buf = [0u8; 8];
                 libc::read(fd, buf.as_mut_ptr().cast(), 8);
                 "ok".to_string()
